@@ -207,6 +207,7 @@ def run(ch, idx, tier):
         OPS += ["add_program", "remove_program", "remove_par", "remove_comp", "progset_edit", "progset_copy", "reconcile", "progset_sample_zero", "remove_program", "reconcile"]
     new_names = 0
     aborted = False
+    originals = []
     try:
         for k in range(nops):
             op = OPS[ch.choose(f"op[{k}]", len(OPS))]
@@ -215,6 +216,7 @@ def run(ch, idx, tier):
                 if op == "none":
                     continue
                 elif op == "parset_copy":
+                    originals.append(("parset", parset, flatten(parset)))  # the copy must be independent: whatever happens to it later must not reach this object
                     if ch.flip("copy_via_ndict", 0.5):
                         P.parsets[parset.name] = parset
                         parset = P.parsets.copy(parset.name, f"copy{k}")
@@ -327,7 +329,10 @@ def run(ch, idx, tier):
                         for ts in par.ts.values():
                             ts.sigma = [None, 0.0][ch.choose("sample_zero.sigma", 2)]
                             ts._sampled = False
+                    before = simulate(parset, progset, "before zero sampling")
                     parset = parset.sample()
+                    after = simulate(parset, progset, "after zero sampling")
+                    compare(before, after, 0.0, "zero_uncertainty_sampling_changes_behaviour", "ParameterSet.sample", {})
                 elif op == "edit_yfactor":
                     pars = [p for p in parset.pars.values() if p.ts and p.name in fw.pars.index]
                     p = pars[ch.choose("edit_yfactor.par", len(pars))]
@@ -348,6 +353,7 @@ def run(ch, idx, tier):
                     if d:
                         violate("calibration_not_applied", "load_calibration", {"diff": d})
                 elif op == "progset_copy":
+                    originals.append(("progset", progset, flatten(progset)))
                     progset = progset.copy(f"pcopy{k}") if ch.flip("progset_copy.method", 0.5) else sc.dcp(progset)
                 elif op == "add_program":
                     new_names += 1
@@ -464,6 +470,13 @@ def run(ch, idx, tier):
         if aborted:
             bump("runs_abandoned_after_refused_operation")
             return {"violations": violations, "stats": stats, "signature": None, "nontrivial": False, "sample": {"project": name, "history": history, "abandoned": True}, "oplog": history, "trace": trace}
+        for kind_, obj, snap in originals:
+            now = flatten(obj)
+            if now != snap:
+                # NDict.copy() legitimately renames the stored original's key owner; ignore the name / modified stamp only
+                d_ = [x for x in diff_tokens(snap, now, 6) if not x[0].endswith(".name")]
+                if d_:
+                    violate("copy_shares_state_with_original", f"{kind_}.copy", {"diff": d_[:3]})
         # -----------------------------------------------------------------------------------
         # round trips
         # -----------------------------------------------------------------------------------
@@ -576,6 +589,13 @@ def run(ch, idx, tier):
             tb = flatten(ps_b, exclude={"uid", "created", "modified", "gitinfo", "version", "filename", "name"})
             if ta != tb:
                 violate("content_changed_by_round_trip", "Project.save/load:parset", {"diff": diff_tokens(ta, tb, 3)})
+            if progset is not None:
+                d = _content_eq(progset_content(progset), progset_content(pg_b), 0)
+                if d:
+                    violate("content_changed_by_round_trip", "Project.save/load:progset", {"diff": d})
+            d = _content_eq(data_content(data), data_content(P2.data), 0)
+            if d:
+                violate("content_changed_by_round_trip", "Project.save/load:data", {"diff": d})
             if base is not None:
                 fnr = os.path.join(scratch, "r.res")
                 sc.saveobj(fnr, base)
